@@ -17,7 +17,9 @@ RULE = (
     "disconnected parts, size-1 dims, ascii/shuffled/>52-symbol alphabets), "
     "path = uniformly drawn live pairs (all binary trees reachable), options "
     "= order x prefer_einsum x implementation x sort_contraction_indices x "
-    "dtype x repeat-contract. Oracle: independent dense broadcast-multiply-"
+    "dtype x repeat-contract x entry point (contract, contract_core, "
+    "get_contractor) x which object is contracted (the built tree, or a "
+    "copy() / pickled clone taken after the original was looked at or not). Oracle: independent dense broadcast-multiply-"
     "sum evaluator, exact equality of integer-valued arrays and of the "
     "shape. Thorough adds ALL (2n-3)!! trees of fixed equations from "
     "tests/test_compute.py (n<=6). Non-trivial = >=3 tensors and (a "
@@ -59,6 +61,10 @@ def options():
             "autojit": st.sampled_from([None] * 19 + [True]),
             "backend": st.sampled_from([None, None, "numpy"]),
             "entry": st.sampled_from(["contract", "contract", "contract_core", "get_contractor"]),
+            # which tree object is contracted: the built one, or a copy / pickled
+            # clone of it taken after the original was (or was not) looked at
+            "derive": st.sampled_from([None, None, None, "copy", "pickle"]),
+            "touch": st.sampled_from([None, "stats", "contract", "preprocessing"]),
         }
     )
 
@@ -80,7 +86,7 @@ def strategy(tier, sub=None):
 
 
 def budget(tier, sub=None):
-    return {"examples": 6000 if tier == "quick" else 300000, "shards": 16}
+    return {"examples": 12000 if tier == "quick" else 400000, "shards": 16}
 
 
 def make_order(opts):
@@ -158,6 +164,23 @@ def run_case(spec, sub=None):
         ok, r = guarded(tree.sort_contraction_indices, **opts["sort"])
         if not ok:
             viol.append(f"sort_contraction_indices raised {r}")
+    if opts.get("derive"):
+        touch = opts.get("touch")
+        if touch == "stats":
+            guarded(tree.contract_stats)
+        elif touch == "contract":
+            guarded(tree.contract, arrays)
+        elif touch == "preprocessing":
+            guarded(tree.has_preprocessing)
+        if opts["derive"] == "copy":
+            ok, t2 = guarded(tree.copy)
+        else:
+            import pickle
+
+            ok, t2 = guarded(lambda: pickle.loads(pickle.dumps(tree)))
+        if not ok:
+            return Outcome([f"{opts['derive']} of the tree raised {t2}"], False, ["error"])
+        tree = t2
     reps = 2 if opts["twice"] else 1
     entry = opts.get("entry", "contract")
     for k in range(reps):
@@ -202,6 +225,8 @@ def run_case(spec, sub=None):
     ]
     if opts.get("autojit"):
         tags.append("autojit")
+    if opts.get("derive"):
+        tags.append(f"derive={opts['derive']}/touch={opts.get('touch')}")
     return Outcome(viol, nontrivial, tags)
 
 
